@@ -12,6 +12,6 @@ OpsV == {"GoNew", "Sentinel", "CtxDeadline", "Errno", "New", "Newf", "NewfW", "P
          "OsLinkError", "OsSyscallError", "UWrap", "Join", "JoinPkg", "GoJoin", "GoWrap2", "Hop"}
 \* restricted instance: %w formats below message wrappers, joins and barriers
 OpsW == {"GoNew", "New", "NewfW", "Wrap", "WithMessage", "Handled", "Join", "GoWrap", "WithHint"}
-ShapesV == {<<"w1">>, <<"w1", "SEP", "w2">>}
+ShapesV == {<<"w1">>, <<"w1", "SEP", "w2">>, <<"w2", "PCT">>}
 Shapes2V == {<<"w2">>}
 =============================================================================
